@@ -10,6 +10,7 @@ almost never intended in this code base; the few instances on the reviewed tree 
   parallel-copy       the statements of one block that copy an element of several parallel arrays into position d read different
                       source positions
   narrow-accumulate   std::accumulate seeded with an int (float) literal whose result is used as a wider type
+  unused-parameter    a named parameter of a member function that is never read (a configuration argument silently dropped)
   swapped-dealloc     a freshly allocated local pointer is swapped with another pointer and then released with its own size
   stale-cursor        a loop steps one pointer cursor while it dereferences a second pointer (the start of another array) that
                       is never advanced
@@ -357,6 +358,13 @@ def hazards(facts, fams=None):
             found.append(("parallel-copy", base, items[0][0].get("loc"), "the element copied into position `%s` is read from different source positions (%s) in the statements of one block: parallel arrays (items / weights / marks) get out of step" % (di, ", ".join(sorted(set(x[1] for x in items))))))
         for n, rt, wt in narrow_accumulate_nodes(fn):
             found.append(("narrow-accumulate", base, n.get("loc"), "std::%s accumulates in `%s` (the type of its initial value) and the result is then widened to `%s`: the partial sums are truncated to the narrow type, whatever the element type and the binary operation return (e.g. a total weight above 2^31 wraps)" % (n.get("cname"), rt, wt)))
+        if fn.get("rect"):
+            used = set()
+            walk(fn["body"], lambda x: used.add(x.get("d")) if x.get("k") == "Ref" else None)
+            walk(fn.get("inits") or [], lambda x: used.add(x.get("d")) if x.get("k") == "Ref" else None)
+            for pm in fn.get("params") or []:
+                if pm.get("n") and pm.get("d") not in used:
+                    found.append(("unused-parameter", "%s:%s" % (base, pm["n"]), fn["pat"], "the named parameter `%s` of %s is never read: what the caller passes (a kernel, a comparator, a seed, a size) is silently replaced by a default inside" % (pm["n"], base)))
         for dn, v, size in swapped_dealloc_nodes(fn):
             found.append(("swapped-dealloc", "%s:%s" % (base, v.get("n")), dn.get("loc"), "`%s` was allocated with `%s` but has been swapped with another pointer before it is released with the same `%s`: the block released is the other one, which was allocated with its own size - an allocator that uses the size passed to deallocate (pools, accounting) is handed a wrong one" % (v.get("n"), size, size)))
         for L, q in stale_cursor_nodes(fn):
@@ -371,7 +379,7 @@ def hazards(facts, fams=None):
                 out.append(ob("lint.hazard", k, loc or fn["pat"], "info", "reviewed instance: %s" % exc[k], fn["qname"]))
             else:
                 out.append(ob("lint.hazard", k, loc or fn["pat"], "violated", detail, fn["qname"]))
-    out.append(ob("lint.hazard", "all:functions-scanned", "", "discharged", "%d functions scanned for 10 hazard patterns" % scanned, ""))
+    out.append(ob("lint.hazard", "all:functions-scanned", "", "discharged", "%d functions scanned for 11 hazard patterns" % scanned, ""))
     # positive controls
     ctl_fn = {"body": {"k": "Block", "s": [
         {"k": "Expr", "e": {"k": "Call", "cname": "f", "callee": "datasketches::f", "args": [{"k": "Cast", "impl": True, "ck": "IntegralCast", "from": "unsigned long", "t": "unsigned int", "e": {"k": "Ref", "n": "seed", "d": 1, "dk": "param", "t": "unsigned long"}}]}},
